@@ -257,14 +257,16 @@ def oracle_hist(sp, parts, obs):
         bad.append(("image_shape", f"shape {(len(img), len(img[0]) if img else 0)} expected {(ny, nx)}", False))
         return bad
     exp = expected_image(sp, parts)
+    # characterised wrong value of F14 (status: see known_findings): the WHOLE image is exactly the image of the y-aligned screen
+    f14 = "F14" if (sp["dy"] != 0 and not img_equal(img, exp) and img_equal(img, expected_image(sp, parts, dy_applied=False))) else False
     if not img_equal(img, exp):
-        f14 = sp["dy"] != 0 and img_equal(img, expected_image(sp, parts, dy_applied=False))
         bad.append(("pixel_contains", {"expected_nonzero": nonzero(exp), "observed_nonzero": nonzero(img)}, f14))
     tot = sum(Fr(v) for r in img for v in r)
     inside = sum(Fr(p["q"]) * Fr(p["s"]) for p in parts if intended_pixel(sp, p["x"], p["y"]) is not None)
     if tot != inside:
-        inside0 = sum(Fr(p["q"]) * Fr(p["s"]) for p in parts if intended_pixel(dict(sp, dy=0.0), p["x"], p["y"]) is not None)
-        bad.append(("hist_sum", {"sum": float(tot), "surviving_charge_inside": float(inside)}, sp["dy"] != 0 and tot == inside0))
+        bad.append(("hist_sum", {"sum": float(tot), "surviving_charge_inside": float(inside),
+                                 "charge_inside_counting_every_particle_with_survival_gt_0_fully":
+                                     float(sum(Fr(p["q"]) for p in parts if p["s"] > 0 and intended_pixel(sp, p["x"], p["y"]) is not None))}, f14))
     # the returned beam: unchanged, or survival zeroed when blocking
     want = [dict(p, s=0.0) if sp["blocking"] else p for p in strip(parts)]
     if obs["out"] != want:
@@ -328,7 +330,8 @@ def oracle_param_vs_particle(run, sp, mx, my):
         f14 = sp["dy"] != 0 and res["particle_peak"] == intended_pixel(dict(sp, dy=0.0), mx, my)
         bad.append(("particle_peak", res, "F14" if f14 else False))
     shp_model, pk_model = param_peak_model(sp, Fr(mx) - Fr(sp["dx"]), Fr(my) - Fr(sp["dy"]))
-    f15 = tuple(im_par.shape) == shp_model and (res["param_peak"] is None or res["param_peak"] == pk_model)
+    f15 = tuple(im_par.shape) == shp_model and res["param_peak"] == pk_model
+    res["f15_signature"] = {"shape": shp_model, "peak": pk_model}
     if tuple(im_par.shape) != (ny, nx):
         bad.append(("param_image_shape", res, "F15" if f15 else False))
     elif want is not None and res["param_peak"] != want:
@@ -433,6 +436,216 @@ def gen_kde_binned(rng, b, upper):
 def oracle_kde_binned(sp, p):
     """binning > 1: KDE peak pixel == containing pixel == histogram pixel (see oracle_kde_peak)."""
     return oracle_kde_peak(sp, p)
+
+
+# ------------------------------------------------------------------------------------------------ survival weights and vectorisation
+def kde_reference(sp, parts, bw):
+    """the KDE image from its definition, in float64: image[r][c] = sum_i q_i s_i g(x_i - dx - cx_c) g(y_i - dy - cy_r) normalised to 1 over the
+    grid, with cx/cy the pixel CENTRES of the binned grid and row 0 at the top; None when nothing survives."""
+    ex, ey = edges(sp)
+    cx = torch.tensor([float((a + b) / 2) for a, b in zip(ex[:-1], ex[1:])], dtype=F64)
+    cy = torch.tensor([float((a + b) / 2) for a, b in zip(ey[:-1], ey[1:])], dtype=F64)
+    x = torch.tensor([p["x"] - sp["dx"] for p in parts], dtype=F64)
+    y = torch.tensor([p["y"] - sp["dy"] for p in parts], dtype=F64)
+    w = torch.tensor([p["q"] * p["s"] for p in parts], dtype=F64)
+    if float(w.sum()) <= 0:
+        return None
+    gx = torch.exp(-0.5 * ((x[:, None] - cx[None, :]) / bw) ** 2)       # (n, nx)
+    gy = torch.exp(-0.5 * ((y[:, None] - cy[None, :]) / bw) ** 2)       # (n, ny)
+    img = torch.einsum("i,ic,ir->rc", w, gx, gy)
+    tot = float(img.sum())
+    if not tot > 1e-6 * float(w.sum()):
+        return None                      # practically all kernel mass off the screen: the 1e-10 regulariser decides, unspecified
+    return torch.flip(img / tot, dims=[0])
+
+
+def kde_image(sp, parts, bw):
+    scr = mk_screen(sp, method="kde", bw=bw)
+    scr.track(mk_pbeam(parts))
+    return scr.reading
+
+
+def img_close(a, b, rel=2e-4):
+    a, b = a.to(F64), b.to(F64)
+    if tuple(a.shape) != tuple(b.shape):
+        return False, {"shapes": [tuple(a.shape), tuple(b.shape)]}
+    d = float((a - b).abs().max())
+    m = float(b.abs().max())
+    if not d <= rel * max(m, 1e-30):
+        idx = int((a - b).abs().argmax())
+        r, c = idx // a.shape[-1], idx % a.shape[-1]
+        return False, {"maxdiff": d, "image_max": m, "at": [r, c], "observed": float(a.flatten()[idx]), "expected": float(b.flatten()[idx])}
+    return True, None
+
+
+def oracle_kde_weights(sp, parts):
+    """KDE screen and survival weights: the image is the normalised kernel sum with weight charge * survival per particle (reference from the
+    definition); a lost particle (survival 0) is invisible (image == image of the beam with it deleted); a particle with charge q and
+    survival s shows like one with charge q*s and survival 1."""
+    bad = []
+    nx, ny = nb(sp)
+    bw = 0.45 * max(sp["px"], sp["py"]) * sp["b"]
+    ref = kde_reference(sp, parts, bw)
+    if ref is None:
+        return bad
+    R = kde_image(sp, parts, bw)
+    if tuple(R.shape) != (ny, nx):
+        return [("kde_shape", {"shape": tuple(R.shape), "expected": (ny, nx)}, False)]
+    ok, d = img_close(R, ref)
+    if not ok:
+        bad.append(("kde_weighted_image", dict(d, what="KDE image vs the kernel sum with weights charge*survival (float64 reference)"), False))
+    alive = [p for p in parts if p["s"] > 0]
+    if alive and len(alive) < len(parts):
+        ok, d = img_close(kde_image(sp, alive, bw), R, rel=1e-5)
+        if not ok:
+            bad.append(("kde_lost_particles_invisible", dict(d, what="image of the beam with the lost particles deleted vs image with them present"), False))
+    if any(0 < p["s"] < 1 for p in parts):
+        folded = [dict(p, q=p["q"] * p["s"], s=1.0) for p in alive]
+        ok, d = img_close(kde_image(sp, folded, bw), R, rel=1e-5)
+        if not ok:
+            bad.append(("kde_weight_is_charge_times_survival", dict(d, what="image with (q*s, 1) in place of (q, s)"), False))
+    return bad
+
+
+def gen_vectorised_case(rng, thorough):
+    """screen x beam with a batch dimension B in the beam (coordinates and/or survival), in the screen misalignment, or both"""
+    sp = gen_screen(rng, thorough)
+    B = rng.choice([2, 3])
+    n = rng.randrange(2, 6)
+    what = rng.choice(["survival", "particles", "misalignment", "misalignment", "both"])
+    mis = [[sp["dx"], sp["dy"]]]
+    while len(mis) < B:
+        m = [rng.choice([0, 1, -1, 2, -3, 5, -6]) * sp["px"] / 4, rng.choice([0, 1, -1, 2, -3, 5]) * sp["py"] / 4]
+        if m not in mis:
+            mis.append(m)
+    if what in ("survival", "particles"):
+        mis = [mis[0]] * B
+    # particles clear of the edges under every misalignment of the batch
+    ex, ey = edges(sp)
+    batches = []
+    for k in range(B if what in ("particles", "both") else 1):
+        parts = []
+        for _ in range(n):
+            x = gen_coord(rng, [ex], float(ex[-1]), sp["px"], [m[0] for m in mis])
+            y = gen_coord(rng, [ey], float(ey[-1]), sp["py"], [m[1] for m in mis])
+            parts.append(dict(x=x, y=y, px=rng.randrange(-8, 9) / 16, py=rng.randrange(-8, 9) / 16, tau=0.0, delta=0.0,
+                              q=rng.randrange(1, 9) / 4, s=1.0))
+        batches.append(parts)
+    if len(batches) == 1:
+        batches = batches * B
+    for b in batches[1:]:
+        for p, p0 in zip(b, batches[0]):
+            p["q"] = p0["q"]
+    surv = []
+    for k in range(B):
+        row = [rng.choice([1.0, 1.0, 0.5, 0.25, 0.75, 0.0]) for _ in range(n)]
+        row[rng.randrange(n)] = rng.choice([1.0, 0.5])
+        surv.append(row)
+    if what == "misalignment" and rng.random() < 0.5:
+        surv = [surv[0]] * B
+    return dict(screen=sp, what=what, misalignments=mis, batches=batches, survival=surv, method=rng.choice(["kde", "kde", "histogram"]),
+                via_segment=rng.random() < 0.4)
+
+
+def build_vectorised(case, dtype=F32):
+    """the vectorised screen and beam of a case, every tensor with the smallest shape that expresses it"""
+    import cheetah
+    sp, B = case["screen"], len(case["survival"])
+    n = len(case["batches"][0])
+    same_parts = all(b == case["batches"][0] for b in case["batches"])
+    same_surv = all(r == case["survival"][0] for r in case["survival"])
+    same_mis = all(m == case["misalignments"][0] for m in case["misalignments"])
+
+    def rows(parts):
+        return [[p["x"], p["px"], p["y"], p["py"], 0.0, 0.0, 1.0] for p in parts]
+    P = torch.tensor(rows(case["batches"][0]) if same_parts else [rows(b) for b in case["batches"]], dtype=dtype)
+    S = torch.tensor(case["survival"][0] if same_surv else case["survival"], dtype=dtype)
+    q = torch.tensor([p["q"] for p in case["batches"][0]], dtype=dtype)
+    beam = cheetah.ParticleBeam(particles=P, energy=torch.tensor(ENERGY, dtype=dtype), particle_charges=q, survival_probabilities=S)
+    mis = torch.tensor(case["misalignments"][0] if same_mis else case["misalignments"], dtype=dtype)
+    bw = 0.45 * max(sp["px"], sp["py"]) * sp["b"]
+    scr = cheetah.Screen(resolution=(sp["W"], sp["H"]), pixel_size=torch.tensor([sp["px"], sp["py"]], dtype=dtype), binning=sp["b"], misalignment=mis,
+                         method=case["method"], kde_bandwidth=torch.tensor(bw, dtype=dtype), is_active=True, name="vscreen")
+    vectorised = not (same_parts and same_surv and same_mis)
+    return scr, beam, bw, vectorised
+
+
+def oracle_vectorised(case):
+    """a vectorised reading equals the per-sample readings, for both image methods: sample k of the batch = the screen with misalignment k
+    reading the beam with coordinates k and survival k.  kde: per-sample normalisation (each image sums to 1 when charge survives on the
+    screen), compared with the un-vectorised real screen and with the float64 reference.  histogram: the code either rejects vectorised input
+    (NotImplementedError or an exception of histogramdd: an input the code rejects) or must give the exact per-sample weighted counts.
+    BPM: reading[:, k] is the survival-weighted centroid of sample k."""
+    import cheetah
+    bad = []
+    sp, B = case["screen"], len(case["survival"])
+    nx, ny = nb(sp)
+    samples = [(dict(sp, dx=m[0], dy=m[1]), [dict(p, s=s) for p, s in zip(parts, srow)])
+               for m, parts, srow in zip(case["misalignments"], case["batches"], case["survival"])]
+    scr, beam, bw, vectorised = build_vectorised(case)
+    try:
+        if case.get("via_segment"):
+            cheetah.Segment([cheetah.Marker(name="vm0"), scr]).track(beam)
+        else:
+            scr.track(beam)
+        R = scr.reading
+    except Exception as ex:  # noqa
+        if case["method"] == "histogram" and vectorised:
+            return [("rejected", repr(ex)[:120], "rejected")]
+        return [("vectorised_raises", {"exception": repr(ex)[:300]}, False)]
+    want_shape = ((B,) if vectorised else ()) + (ny, nx)
+    if tuple(R.shape) != want_shape:
+        return [("vectorised_shape", {"shape": tuple(R.shape), "expected": want_shape}, False)]
+    for k, (spk, pk) in enumerate(samples):
+        Rk = R[k] if vectorised else R
+        if case["method"] == "histogram":
+            exp = expected_image(spk, pk)
+            if not img_equal(Rk.tolist(), exp):
+                bad.append(("vectorised_histogram_vs_per_sample", {"sample": k, "expected_nonzero": nonzero(exp), "observed_nonzero": nonzero(Rk.tolist())}, False))
+                break
+            continue
+        if sum(p["q"] * p["s"] for p in pk) <= 0:
+            if bool((Rk != 0).any()):
+                bad.append(("kde_lost_beam_visible", {"sample": k, "max": float(Rk.abs().max())}, False))
+            continue
+        one = kde_image(spk, pk, bw)
+        ok, d = img_close(Rk, one, rel=1e-5)
+        if not ok:
+            bad.append(("kde_vectorised_vs_per_sample", dict(d, sample=k, what="sample k of the vectorised reading vs the un-vectorised screen/beam k"), False))
+            break
+        ref = kde_reference(spk, pk, bw)
+        if ref is not None:
+            ok, d = img_close(Rk, ref)
+            if not ok:
+                bad.append(("kde_vectorised_vs_definition", dict(d, sample=k), False))
+                break
+            tot = float(Rk.to(F64).sum())
+            if not abs(tot - 1.0) <= 1e-4:
+                bad.append(("kde_per_sample_normalisation", {"sample": k, "sum": tot}, False))
+                break
+    # BPM on the same vectorised beam (float64): per-sample survival-weighted centroid
+    try:
+        _s, beam64, _bw, _v = build_vectorised(case, dtype=F64)
+        bpm = cheetah.BPM(is_active=True)
+        bpm.track(beam64)
+        rd = bpm.reading.reshape(2, -1).tolist()
+        for k, (spk, pk) in enumerate(samples):
+            ssum = sum(Fr(p["s"]) for p in pk)
+            if ssum == 0:
+                continue
+            cx = sum(Fr(p["x"]) * Fr(p["s"]) for p in pk) / ssum
+            cy = sum(Fr(p["y"]) * Fr(p["s"]) for p in pk) / ssum
+            kk = k if len(rd[0]) > 1 else 0
+            if len(rd[0]) == 1 and (pk != samples[0][1]):
+                bad.append(("bpm_vectorised_shape", {"reading_shape": [2, len(rd[0])], "samples": B}, False))
+                break
+            scale = max(1.0, max(abs(p["x"]) + abs(p["y"]) for p in pk))
+            if abs(Fr(rd[0][kk]) - cx) > 1e-12 * scale or abs(Fr(rd[1][kk]) - cy) > 1e-12 * scale:
+                bad.append(("bpm_vectorised_centroid", {"sample": k, "reading": [rd[0][kk], rd[1][kk]], "centroid": [float(cx), float(cy)]}, False))
+                break
+    except Exception as ex:  # noqa
+        bad.append(("bpm_vectorised_raises", {"exception": repr(ex)[:300]}, False))
+    return bad
 
 
 # ------------------------------------------------------------------------------------------------ direct Screen.track / screen(beam)
@@ -562,14 +775,21 @@ def main(tier, replay=None):
     rng = run.rng
     new_bad, known = [], set()     # new_bad: list of replay dicts
 
+    # only a finding listed with status `known` may absorb a deviation, and only when the oracle has tagged the deviation because the
+    # OBSERVED values equal that finding's characterised wrong values (the tag is computed from the observation, see the oracles).
+    # A finding with status `fixed` absorbs nothing: its stored input is replayed as a regression test (replay_known).
+    absorbing = {f["id"] for f in common.load_known_findings(PID) if f.get("status") == "known"}
+
     def record(kind, inp, items):
         for clause, detail, tag in items:
-            if tag is True or tag == "F14":
-                known.add("F14")
-            elif tag == "F15":
-                known.add("F15")
-            else:
-                new_bad.append(dict(kind=kind, clause=clause, detail=detail, **inp))
+            if isinstance(tag, str) and tag in absorbing:
+                known.add(tag)
+                continue
+            item = dict(kind=kind, clause=clause, detail=detail, **inp)
+            if tag:
+                item["resembles_finding"] = {"id": tag if isinstance(tag, str) else "?", "note": "observed values equal the characterised wrong values of a "
+                                             "finding that is not listed with status 'known' (fixed findings absorb nothing): reported as a violation"}
+            new_bad.append(item)
 
     yidx = None
     try:
@@ -731,6 +951,60 @@ def main(tier, replay=None):
     except RuntimeError as ex:
         corr_err = (corr_err or "") + str(ex)
 
+    # ---------------- survival weights (fractional and zero) and vectorisation; after the older stages, which keep their random stream
+    wterms, wcases = [], []
+    for k in range(300 if thorough else 36):
+        sp = gen_screen(rng, thorough)
+        sp["via_segment"] = rng.random() < 0.3
+        sp["pretrack"] = False
+        parts = gen_particles(rng, sp, rng.randrange(2, 9))
+        for p in parts:
+            p["s"] = rng.choice([1.0, 0.75, 0.5, 0.25, 0.125, 0.0, 0.0])
+        inside = [p for p in parts if intended_pixel(sp, p["x"], p["y"]) is not None]
+        if inside:                        # a fractional and a lost particle ON the screen, next to a fully surviving one
+            inside[0]["s"] = rng.choice([0.5, 0.25, 0.75, 0.125])
+            inside[-1]["s"] = 0.0 if len(inside) > 2 else inside[-1]["s"]
+            if len(inside) > 1:
+                inside[1]["s"] = 1.0
+        inp = dict(screen=sp, particles=parts)
+        try:
+            obs = observe_hist(sp, parts)
+            record("hist", inp, oracle_hist(sp, parts, obs))
+            wcases.append((sp, parts, obs))
+            wterms.append(coq_hist_case(sp, parts, obs))
+        except Exception as ex:  # noqa
+            new_bad.append(dict(kind="hist", clause="raises", detail=repr(ex)[:300], **inp))
+        run.add_case(["hist_weighted", sp, parts], bool(inside))
+        run.count("hist_weighted_cases")
+        run.count("hist_weighted_fractional_inside", sum(1 for p in inside if 0 < p["s"] < 1))
+        run.count("hist_weighted_lost_inside", sum(1 for p in inside if p["s"] == 0))
+        if k % 2 == 0:
+            try:
+                record("kde_weights", inp, oracle_kde_weights(sp, parts))
+            except Exception as ex:  # noqa
+                new_bad.append(dict(kind="kde_weights", clause="raises", detail=repr(ex)[:300], **inp))
+            run.count("kde_weighted_cases")
+    wcorr_fail = []
+    try:
+        wcorr_fail = common.run_shards(PID, "histw", PRE, wterms, checker, shard=60)
+        run.cov["traces_validated_against_impl"] += len(wterms)
+    except RuntimeError as ex:
+        corr_err = (corr_err or "") + str(ex)
+    if wcorr_fail and not corr_fail:
+        cases, corr_fail = wcases, wcorr_fail
+    for k in range(300 if thorough else 40):
+        case = gen_vectorised_case(rng, thorough)
+        try:
+            items = oracle_vectorised(case)
+        except Exception as ex:  # noqa
+            items = [("raises", repr(ex)[:300], False)]
+        if any(t == "rejected" for c, d, t in items):
+            run.count("vectorised_histogram_rejected_by_the_code")
+        else:
+            run.count("vectorised_%s_%s" % (case["method"], case["what"]))
+        record("vectorised", dict(case=case), [it for it in items if it[2] != "rejected"])
+        run.add_case(["vectorised", case], True)
+
     # ---------------- known findings: replay the stored inputs
     replay_known(run, known)
 
@@ -776,7 +1050,7 @@ def shrink(item):
             obs = observe_hist(sp, ps)
         except Exception:
             return item["clause"] == "raises"
-        return any(c == item["clause"] and not t for c, d, t in oracle_hist(sp, ps, obs))
+        return any(c == item["clause"] for c, d in untagged(oracle_hist(sp, ps, obs)))
     changed = True
     while changed and len(parts) > 1:
         changed = False
@@ -796,55 +1070,82 @@ def shrink(item):
     return item
 
 
+def absorbing_ids():
+    """ids of the findings that may absorb a deviation: listed for C20 with status `known` (never `fixed`)."""
+    return {f["id"] for f in common.load_known_findings(PID) if f.get("status") == "known"}
+
+
+def untagged(items):
+    """the (clause, detail) pairs of oracle items that no KNOWN finding absorbs"""
+    ab = absorbing_ids()
+    return [(c, d) for c, d, t in items if not (isinstance(t, str) and t in ab)]
+
+
+def replay_finding_input(run, f):
+    """re-run the stored input of a finding; returns the oracle items (clause, detail, tag) that fail on the current tree"""
+    r = f["replay"]
+    if r.get("kind") == "hist" or f["id"] == "F14":
+        obs = observe_hist(r["screen"], r["particles"])
+        return oracle_hist(r["screen"], r["particles"], obs)
+    if r.get("kind") == "param" or f["id"] == "F15":
+        return oracle_param_vs_particle(run, r["screen"], r["mu_x"], r["mu_y"])[1]
+    return replay_items(run, r)
+
+
 def replay_known(run, seen):
     for f in common.load_known_findings(PID):
-        if f.get("status") != "known":
+        if "replay" not in f:
             continue
-        r = f["replay"]
-        still = False
         try:
-            if f["id"] == "F14":
-                obs = observe_hist(r["screen"], r["particles"])
-                items = oracle_hist(r["screen"], r["particles"], obs)
-                still = any(c == "pixel_contains" and t for c, d, t in items)
-            elif f["id"] == "F15":
-                res, bad = oracle_param_vs_particle(run, r["screen"], r["mu_x"], r["mu_y"])
-                still = any(t == "F15" for c, d, t in bad)
-        except Exception:
-            still = False
+            items = replay_finding_input(run, f)
+        except Exception as ex:  # noqa
+            items = [("raises", repr(ex)[:300], False)]
+        if f.get("status") != "known":
+            # a FIXED finding suppresses nothing: its stored input is a regression test
+            if items:
+                c, d, _t = items[0]
+                run.violation(dict(f["replay"], clause=c, detail=d, regression_of=f["id"],
+                                   relation="the stored input of a finding listed as fixed fails again"))
+            continue
+        still = any(t == f["id"] for c, d, t in items)
         if still or f["id"] in seen:
             run.known(f["what"])
         else:
             run.cov["known_findings_not_reproduced"].append(f["id"])
-    listed = {f["id"] for f in common.load_known_findings(PID) if f.get("status") == "known"}
-    for fid in sorted(seen - listed):
-        # classified by signature but not listed: must not be silently accepted
+    for fid in sorted(seen - absorbing_ids()):
+        # (not reachable: record() only absorbs into listed known findings)
         run.violation({"kind": "unlisted_finding", "finding": fid, "broken": "behaviour matches a finding signature that is not in known_findings"}, no_input=True)
+
+
+def replay_items(run, r):
+    kind = r.get("kind")
+    if kind == "hist":
+        return oracle_hist(r["screen"], r["particles"], observe_hist(r["screen"], r["particles"]))
+    if kind == "param":
+        return oracle_param_vs_particle(run, r["screen"], r["mu_x"], r["mu_y"])[1]
+    if kind == "kde":
+        return oracle_kde(run, r["screen"], r["batches"])
+    if kind == "kde_peak":
+        return oracle_kde_peak(r["screen"], r["particles"][0])
+    if kind == "kde_binned":
+        return oracle_kde_binned(r["screen"], r["particles"][0])
+    if kind == "direct":
+        return oracle_direct(r["screen"], r["particles"], r["mu_x"], r["mu_y"])
+    if kind == "bpm":
+        return oracle_bpm(run, r["particles"], r["beam_type"])[0]
+    if kind == "kde_weights":
+        return oracle_kde_weights(r["screen"], r["particles"])
+    if kind == "vectorised":
+        return oracle_vectorised(r["case"])
+    return None
 
 
 def do_replay(run, path):
     r = json.loads(open(path).read())
-    kind = r.get("kind")
-    bad = []
-    if kind == "hist":
-        obs = observe_hist(r["screen"], r["particles"])
-        bad = [(c, d) for c, d, t in oracle_hist(r["screen"], r["particles"], obs) if not t]
-    elif kind == "param":
-        res, items = oracle_param_vs_particle(run, r["screen"], r["mu_x"], r["mu_y"])
-        bad = [(c, d) for c, d, t in items if not t]
-    elif kind in ("kde",):
-        bad = [(c, d) for c, d, t in oracle_kde(run, r["screen"], r["batches"]) if not t]
-    elif kind == "kde_peak":
-        bad = [(c, d) for c, d, t in oracle_kde_peak(r["screen"], r["particles"][0]) if not t]
-    elif kind == "kde_binned":
-        bad = [(c, d) for c, d, t in oracle_kde_binned(r["screen"], r["particles"][0]) if not t]
-    elif kind == "direct":
-        bad = [(c, d) for c, d, t in oracle_direct(r["screen"], r["particles"], r["mu_x"], r["mu_y"]) if not t]
-    elif kind == "bpm":
-        items, _ = oracle_bpm(run, r["particles"], r["beam_type"])
-        bad = [(c, d) for c, d, t in items]
-    else:
+    items = replay_items(run, r)
+    if items is None:
         print("replay: this replay file records a broken model/proof, not a failing input")
         return 0
+    bad = untagged(items)
     print("replay:", "property holds on this input" if not bad else f"property FAILS on this input: {bad[:2]}")
     return 1 if bad else 0
